@@ -183,6 +183,29 @@ pub fn run_c06(cfg: &Cfg) -> Report {
             cx.rep.distinct(&("nested", ko, ki, pad));
         }
     }));
+    // coverage floor: every exported constructor and every (length-prefixed kind x PkgLength width
+    // reachable in this tier) cell must have been observed
+    if cfg.replay.is_none() && !cfg.mini && cfg.scale_pct >= 100 && rep.violation_count == 0 {
+        let ctors = [
+            "ZERO", "ONE", "ONES", "u8", "u16", "u32", "u64", "usize", "String", "&'static str", "Path", "Name::new_field_name", "Name", "Package", "PackageBuilder",
+            "VarPackageTerm", "BufferData", "BufferTerm", "Uuid", "EISAName", "ResourceTemplate", "Device", "Scope", "Scope::raw", "Method", "MethodCall", "Field", "OpRegion",
+            "If", "Else", "While", "Equal", "LessThan", "GreaterThan", "NotEqual", "GreaterEqual", "LessEqual", "Arg", "Local", "Store", "Mutex", "Acquire", "Release", "Notify",
+            "ObjectType", "SizeOf", "Return", "DeRefOf", "Add", "Concat", "Subtract", "Multiply", "ShiftLeft", "ShiftRight", "And", "Nand", "Or", "Nor", "Xor", "ConcatRes", "Mod",
+            "Index", "ToString", "CreateDWordField", "CreateQWordField", "ToBuffer", "ToInteger", "CreateField", "Mid", "PowerResource",
+        ];
+        for c in ctors {
+            if !rep.cov.contains_key(&format!("ctor:{}", c)) {
+                rep.inconclusive(format!("coverage floor: constructor {} never appeared in a checked tree", c));
+            }
+        }
+        for label in ["Scope", "Buffer", "Package", "VarPackage", "Method", "Field", "Device", "PowerResource", "If", "Else", "While"] {
+            for w in 1..=(if thorough { 4 } else { 3 }) {
+                if !rep.cov.contains_key(&format!("window:{}:pkglen{}", label, w)) {
+                    rep.inconclusive(format!("coverage floor: no {} with a {}-byte PkgLength was parsed", label, w));
+                }
+            }
+        }
+    }
     rep
 }
 
